@@ -38,6 +38,7 @@ class Adversary:
         count      only the counting of all matrices expires
         nonlazy    everything expires except instantiating a lazy encoder
         lazy       instantiating a lazy (or pattern) encoder expires, nothing else does
+        enum       everything expires except instantiating an enumerating encoder (the last selection stage decides)
         mask:<n>   call i expires iff bit (i mod 24) of n is set"""
 
     def __init__(self, spec):
@@ -60,6 +61,8 @@ class Adversary:
             expire = not (is_inst and isinstance(args[0], LazyEncoder))
         elif spec == 'lazy':
             expire = is_inst and isinstance(args[0], LazyEncoder)
+        elif spec == 'enum':
+            expire = not (is_inst and type(args[0]).__module__.startswith('adsg_core.optimization.assign_enc.enumerating'))
         else:
             expire = bool((int(spec.split(':')[1]) >> (i % 24)) & 1)
         if expire:
